@@ -53,9 +53,9 @@ def step (clearAtAdmission useCache : Bool) (n : N) : Op → N × R
     else if useCache && n.cached == some n.inp then (n, .ret n.out)
     else ({ n with running := true, job := some n.inp, cached := if clearAtAdmission then none else n.cached }, .future)
   | .work =>
-    match n.job with
-    | none => (n, .unit)
-    | some v => ({ n with job := none, done := some v, file := some v }, .unit)
+    match n.job, n.file with
+    | some v, none => ({ n with job := none, done := some v, file := some v }, .unit)
+    | _, _ => (n, .unit)      -- nothing to do, or a result file of an abandoned job is in the way (the harness waits)
   | .deliver =>
     match n.done with
     | none => (n, .unit)
